@@ -97,5 +97,19 @@ theorem exit_validation_is_the_source (dl : Delegation) (amt : Int) (v : ValInfo
     Generated.ValidateDelegatedAmount dl amt v a = validateDelegatedAmount dl.shares amt v a :=
   ArithTie.validateDelegatedAmount_is_source dl amt v a
 
+/-- the amount guards of the three staking messages are pinned to the source text (`C16.msg_guards_as_modelled`): here only
+    what the model does with them — a non-positive amount is refused before anything else -/
+theorem amount_guard_is_strictly_positive (del : Acct) (v : ValId) (d : Denom) (amt : Int) (w : World) (h : amt ≤ 0) :
+    (step (.undelegate del v d amt) w).1 = .error (.err "invalid_amount") ∧
+    (step (.delegate del v d amt) w).1 = .error (.err "invalid_amount") := by
+  constructor
+  · show (asTx (msgUndelegate del v d amt) w).1 = _
+    rw [asTx_apply]; unfold msgUndelegate
+    simp [bind_apply, guardE_apply, h]
+  · show (asTx (msgDelegate del v d amt) w).1 = _
+    rw [asTx_apply]; unfold msgDelegate
+    have : ¬ amt > 0 := by omega
+    simp [bind_apply, guardE_apply, this]
+
 end C05
 end Alliance
